@@ -671,14 +671,21 @@ def conform(traces):
     bad = []
     n = 0
     for maxtasks, trace in traces:
-        tasks_ = [t for t in trace if t[0] == 'task']
+        synack = any(t[0] == 'synack' for t in trace)
+        tasks_ = [t for t in trace if t[0] in ('task', 'refused')]
         ends = [t for t in trace if t[0] == 'exit']
         if ends and (not ends[0][2] or ends[0][1] not in (0, bp.EX_RECYCLE)):
             continue      # abrupt deaths / signals: fault injection part
-        cfg = dict(tasks=['ok' if t[1] else 'raise' for t in tasks_] or ['ok'],
+        cfg = dict(tasks=[('ok' if t[0] == 'refused' or t[1] else 'raise')
+                          for t in tasks_] or ['ok'],
                    quota=maxtasks, end='sentinel')
+        if synack:
+            cfg.update(synack=True, syn=['nack' if t[0] == 'refused' else
+                                         'ack' for t in tasks_])
         if not tasks_:
             cfg['tasks'] = []
+            cfg.pop('synack', None)
+            cfg.pop('syn', None)
         r = Run(cfg, None, False).run()
         n += 1
         skel = [(m[0], m[1][2][0]) if m[0] == READY else (m[0],)
@@ -688,6 +695,9 @@ def conform(traces):
         for t in tasks_:
             if maxtasks and k >= maxtasks:
                 break
+            if t[0] == 'refused':
+                want += [(ACK,)]        # refused: no result, not counted
+                continue
             want += [(ACK,), (READY, t[1])]
             k += 1
         if skel[:len(want)] != want:
